@@ -18,6 +18,10 @@ func NewOffsetWriter(w io.WriterAt, off int64) *OffsetWriteSeeker {
 }
 
 func (ow *OffsetWriteSeeker) Write(b []byte) (n int, err error) {
+	if hn, herr, handled := verifBeforeWrite(ow.w, ow.offset, b); handled {
+		ow.offset += int64(hn)
+		return hn, herr
+	}
 	n, err = ow.w.WriteAt(b, ow.offset)
 	ow.offset += int64(n)
 	return
